@@ -414,7 +414,10 @@ class TransformationInstructionsGenerator:
         continue
       elif check_replace_dq_q_with_rq(producer_trans_rule, trans_rule):
         for consumer_id in trans_rule.consumers:
-          producer_trans_rule.consumers.remove(consumer_id)
+          # An op that reads the tensor through several operands is listed
+          # once per operand here but only once in the producer rule.
+          if consumer_id in producer_trans_rule.consumers:
+            producer_trans_rule.consumers.remove(consumer_id)
         transformations.append(
             qtyping.TransformationInst(
                 qtyping.QuantTransformation.QUANTIZE_TENSOR,
